@@ -21,6 +21,7 @@ def handle (st : DState) (req : Sexp) : DState × Sexp :=
     | none => (st, .list [.atom "bad-request"])
   | .list (.atom "fn" :: rest) => (st, handleFn st.tree rest)
   | .list (.atom "exec" :: rest) => (st, handleExec st.tree rest)
+  | .list (.atom "contracts" :: rest) => (st, handleContracts st.tree rest)
   | .list (.atom "parse" :: rest) => (st, handleParse rest)
   | .list (.atom "load" :: rest) => (st, handleLoad rest)
   | .list (.atom "cli" :: rest) => (st, handleCli rest)
